@@ -916,3 +916,161 @@ Proof.
   rewrite split_field_app by assumption. rewrite split_field_app by assumption.
   destruct (r_uuid r); [congruence|reflexivity].
 Qed.
+
+(** * non-vacuity: a concrete history that meets every hypothesis used above *)
+
+Definition ex_code (d : Z) : Z := if Z.ltb d 0 then 99 - 2 * d else 100 + 2 * d.
+Definition ex_fmt (d : Z) : str := [Z.to_N (ex_code d)].
+
+Lemma ex_code_bounds d : (100 <= ex_code d)%Z.
+Proof. unfold ex_code. destruct (Z.ltb d 0) eqn:A; [apply Z.ltb_lt in A|apply Z.ltb_ge in A]; lia. Qed.
+
+Lemma ex_code_inj d d' : ex_code d = ex_code d' -> d = d'.
+Proof.
+  unfold ex_code.
+  destruct (Z.ltb d 0) eqn:A; [apply Z.ltb_lt in A|apply Z.ltb_ge in A];
+    (destruct (Z.ltb d' 0) eqn:B; [apply Z.ltb_lt in B|apply Z.ltb_ge in B]); lia.
+Qed.
+
+Lemma ex_fmt_inj d d' : ex_fmt d = ex_fmt d' -> d = d'.
+Proof.
+  unfold ex_fmt. intros E. assert (E' : Z.to_N (ex_code d) = Z.to_N (ex_code d')) by congruence.
+  apply (f_equal Z.of_N) in E'. pose proof (ex_code_bounds d). pose proof (ex_code_bounds d').
+  rewrite !Z2N.id in E' by lia. apply ex_code_inj. exact E'.
+Qed.
+
+Lemma ex_fmt_noslash d : ~ In SLASH (ex_fmt d).
+Proof.
+  unfold ex_fmt, SLASH. intros [E|[]]. apply (f_equal Z.of_N) in E. pose proof (ex_code_bounds d).
+  rewrite Z2N.id in E by lia. change (Z.of_N 47) with 47%Z in E. lia.
+Qed.
+
+Definition ex_hist : list rec :=
+  [ Rec (U"Op")   (U"a1") 0 10%Z          [(INCOMPLETE, MBool false); (U"tenant", MStr (U"a"))];
+    Rec (U"OpX")  (U"b2") 0 20%Z          [(U"tenant", MStr (U"a"))];
+    Rec (U"Op_Y") (U"c3") 0 30%Z          [];
+    Rec (U"O")    (U"d4") 1 (D + 5)%Z     [(INCOMPLETE, MBool false)];
+    Rec (U"Op_")  (U"e5") 1 (D + 6)%Z     [(U"tenant", MStr (U"a"))];
+    Rec (U"Op")   (U"f6") 1 (D + 40)%Z    [(INCOMPLETE, MBool true); (U"tenant", MStr (U"a"))];
+    Rec (U"Op")   (U"a1") 0 (D + 50)%Z    [(U"tenant", MStr (U"ab"))];      (* the first recording saved again *)
+    Rec (U"Op")   (U"07") 2 (2 * D + 1)%Z [(INCOMPLETE, MNone)] ].
+
+Ltac notin_tac := cbv; intuition discriminate.
+
+Lemma ex_wf : forall r, In r ex_hist -> wf_all r.
+Proof.
+  intros r H. cbn in H.
+  repeat (destruct H as [<-|H]; [unfold wf_all, wf_file; cbn [r_cat r_uuid]; repeat split; notin_tac|]).
+  contradiction.
+Qed.
+
+Lemma ex_consistent : resave_consistent ex_hist.
+Proof.
+  intros x y Hx Hy. cbn in Hx, Hy.
+  repeat (destruct Hx as [<-|Hx]; [|]); try contradiction;
+    repeat (destruct Hy as [<-|Hy]; [|]); try contradiction; cbn [r_cat r_uuid r_day];
+    intros E1 E2; try reflexivity; exfalso; cbv in E1, E2; try discriminate E1; discriminate E2.
+Qed.
+
+Lemma ex_flags : forall r, In r ex_hist -> flag_domain (same (r_meta r)).
+Proof.
+  intros r H. cbn in H.
+  repeat (destruct H as [<-|H]; [unfold flag_domain; vm_compute; tauto|]). contradiction.
+Qed.
+
+Definition ex_filter : meta := [(U"tenant", MStr (U"a*"))].
+
+Lemma ex_runs :
+  (* plain listing of a category that is a prefix of three others *)
+  mem_iter glob_simple (fun l => l) (store_of mem_id ex_hist) (U"Op") [] None false
+    = Listed [U"Op/a1"; U"Op/f6"; U"Op/07"] /\
+  file_iter glob_simple (store_of file_name ex_hist) (List.rev (store_of file_name ex_hist)) (U"Op") [] None
+    = Listed [U"Op/07"; U"Op/f6"; U"Op/a1"] /\
+  (* the default lookup drops the incomplete one, keeps the one without a flag and the one whose flag is None *)
+  find_mem glob_simple (fun l => l) (store_of mem_id ex_hist) (U"Op") [] None false true
+    = Listed [U"Op/a1"; U"Op/07"] /\
+  (* a pattern filter, the default empty key prefix, three day folders, limit 2, round-robin merge *)
+  map (map (fun c => N.to_nat c)) (match
+    find_s3 glob_simple ex_fmt same (fun l => l) (fun n => n) [] (store_of (s3_key ex_fmt []) ex_hist)
+            (U"Op") (Some 0%Z) (Some (3 * D)%Z) (3 * D)%Z ex_filter (Some 2) false false
+    with Listed l => l | _ => [] end)
+    = map (map (fun c => N.to_nat c))
+          [U"Op" ++ SLASH :: ex_fmt 0 ++ SLASH :: U"a1"; U"Op" ++ SLASH :: ex_fmt 1 ++ SLASH :: U"f6"].
+Proof. repeat split; vm_compute; reflexivity. Qed.
+
+(** * statements as used by Properties/C10.v *)
+
+Lemma store_of_saves key h : incl (store_of key h) h /\ NoDup (map key (store_of key h)).
+Proof. split; [apply store_incl|apply store_nodup]. Qed.
+
+Lemma skip_incomplete_full glob view s c f r :
+  NoDup (map fst f) -> (forall x, In x s -> flag_domain (view (r_meta x))) ->
+  (In r (spec_recs glob view s c (lookup_filter true f)) <->
+   In r (spec_recs glob view s c (remove_key INCOMPLETE f)) /\ flag_true (view (r_meta r)) = false) /\
+  lookup_filter false f = f.
+Proof. intros. split; [apply skip_incomplete_listing; assumption|reflexivity]. Qed.
+
+Lemma category_of_created_id fmt r :
+  ~ In SLASH (r_cat r) ->
+  category_of (mem_id r) = r_cat r /\
+  (r_cat r <> [] -> fmt (r_day r) <> [] -> ~ In SLASH (fmt (r_day r)) -> r_uuid r <> [] ->
+   s3_category_of (s3_id fmt r) = Listed (r_cat r)).
+Proof. intros H. split; [apply category_of_mem_id; exact H|intros; apply s3_category_created; assumption]. Qed.
+
+Definition ex_s3_listing : list str :=
+  match find_s3 glob_simple ex_fmt same (fun l => l) (fun n => n) [] (store_of (s3_key ex_fmt []) ex_hist)
+                (U"Op") (Some 0%Z) (Some (3 * D)%Z) (3 * D)%Z ex_filter (Some 2) false false
+  with Listed l => l | _ => [] end.
+
+Lemma ex_nonvacuous :
+  (forall r, In r ex_hist -> wf_all r) /\ resave_consistent ex_hist /\
+  (forall r, In r ex_hist -> flag_domain (same (r_meta r))) /\
+  (forall d d', ex_fmt d = ex_fmt d' -> d = d') /\ (forall d, ~ In SLASH (ex_fmt d)) /\
+  mem_iter glob_simple (fun l => l) (store_of mem_id ex_hist) (U"Op") [] None false
+    = Listed [U"Op/a1"; U"Op/f6"; U"Op/07"] /\
+  file_iter glob_simple (store_of file_name ex_hist) (List.rev (store_of file_name ex_hist)) (U"Op") [] None
+    = Listed [U"Op/07"; U"Op/f6"; U"Op/a1"] /\
+  find_mem glob_simple (fun l => l) (store_of mem_id ex_hist) (U"Op") [] None false true
+    = Listed [U"Op/a1"; U"Op/07"] /\
+  map (map (fun c => N.to_nat c)) ex_s3_listing
+    = map (map (fun c => N.to_nat c))
+          [U"Op" ++ SLASH :: ex_fmt 0 ++ SLASH :: U"a1"; U"Op" ++ SLASH :: ex_fmt 1 ++ SLASH :: U"f6"].
+Proof.
+  pose proof ex_runs as (A & B & C & E).
+  exact (conj ex_wf (conj ex_consistent (conj ex_flags (conj ex_fmt_inj (conj ex_fmt_noslash
+          (conj A (conj B (conj C E)))))))).
+Qed.
+
+(** * the defects repaired in /repo (de4e2f4, 9fc7a09, 91a8799), kept as replayable witnesses *)
+
+(** F10a: with only the file-name prefix test, a lookup for "Op" also lists OpX, Op_Y and Op_ recordings *)
+Lemma legacy_file_prefix_leak :
+  exists out, legacy_file_scan glob_simple false true (store_of file_name ex_hist) (U"Op") []
+                               (store_of file_name ex_hist) = Listed out /\
+              In (U"OpX/b2") out /\ In (U"Op_Y/c3") out /\ In (U"Op_/e5") out /\
+              ~ In (U"OpX/b2") (lookup_spec glob_simple mem_id same (store_of file_name ex_hist) (U"Op") []).
+Proof.
+  eexists. split; [vm_compute; reflexivity|]. repeat split; try (vm_compute; tauto).
+  vm_compute. intuition discriminate.
+Qed.
+
+(** F10b: per-key == never matches the default filter [False, None] (O/d4 is complete and is not listed), and a
+    recording without the key aborts the listing with KeyError *)
+Lemma legacy_file_filter_broken :
+  legacy_file_scan glob_simple true false (store_of file_name ex_hist) (U"O") (lookup_filter true [])
+                   (store_of file_name ex_hist) = Listed [] /\
+  lookup_spec glob_simple mem_id same (store_of file_name ex_hist) (U"O") (lookup_filter true []) = [U"O/d4"] /\
+  legacy_file_scan glob_simple true false (store_of file_name ex_hist) (U"Op_") (lookup_filter true [])
+                   (store_of file_name ex_hist) = LRaises KeyError.
+Proof. repeat split; vm_compute; reflexivity. Qed.
+
+(** F10c: with the default empty key prefix the parsed-back id does not exist (AttributeError); a key prefix
+    containing "metadata/" is cut short and the id comes back with a piece of the prefix in front *)
+Lemma legacy_s3_id_parse_broken :
+  legacy_s3_iter glob_simple ex_fmt same (fun l => l) (fun n => n) [] (store_of (s3_key ex_fmt []) ex_hist)
+                 (U"Op") None None 0%Z [] None false = LRaises AttributeError /\
+  legacy_key_id (s3_key ex_fmt (U"xmetadata/y") (Rec (U"Op") (U"a1") 0 0%Z []))
+    = Listed (U"y/metadata/" ++ s3_id ex_fmt (Rec (U"Op") (U"a1") 0 0%Z [])) /\
+  (exists out, s3_iter glob_simple ex_fmt same (fun l => l) (fun n => n) [] (store_of (s3_key ex_fmt []) ex_hist)
+                 (U"Op") None None 0%Z [] None false = Listed out /\ length out = 3).
+Proof. repeat split; try (vm_compute; reflexivity). eexists. split; vm_compute; reflexivity. Qed.
